@@ -109,6 +109,15 @@ fn parse_rendered(out: &str) -> Result<Rendered, String> {
     if lines.is_empty() {
         return Err("no source line shown".into());
     }
+    // every row that has a gutter must have its bar in the same column as the marker row
+    let bar_of = |row: &str| row.find(" |").map(|b| row[..b].chars().count());
+    let bars: Vec<usize> = ls[1..].iter().filter(|r| !r.trim_start().starts_with('=') ).filter_map(|r| {
+        let (g, _) = split_row(r)?;
+        if g.trim().is_empty() || g.trim().parse::<usize>().is_ok() { bar_of(r) } else { None }
+    }).collect();
+    if bars.windows(2).any(|w| w[0] != w[1]) {
+        return Err(format!("gutter bars are not aligned (columns {bars:?})"));
+    }
     Ok(Rendered { header_line, header_col, lines, underline: underline.ok_or("no underline row")? })
 }
 
@@ -334,6 +343,25 @@ fn main() {
     let jobs = cfg.jobs;
     let chunks: Vec<Vec<&String>> = (0..jobs).map(|j| strings.iter().skip(j).step_by(jobs).collect()).collect();
     let mut stats = Stats::new();
+    // many-line texts: line numbers that change their number of digits inside one span
+    let many: Vec<String> = [8usize, 9, 10, 11, 99, 100, 101].iter().flat_map(|n| vec!["x\n".repeat(*n), format!("{}é", "a\n".repeat(*n)), format!("\r\n{}", "\n".repeat(*n))]).collect();
+    let many_parts: Vec<Stats> = std::thread::scope(|sc| {
+        let hs: Vec<_> = many
+            .iter()
+            .map(|s| {
+                sc.spawn(move || {
+                    let mut st = Stats::new();
+                    check_string(s, &mut st, true);
+                    st.inc("many_line_strings");
+                    st
+                })
+            })
+            .collect();
+        hs.into_iter().map(|h| h.join().unwrap()).collect()
+    });
+    for p in many_parts {
+        stats.merge(p);
+    }
     let parts: Vec<Stats> = std::thread::scope(|sc| {
         let hs: Vec<_> = chunks
             .into_iter()
